@@ -104,6 +104,24 @@ fn main_step(k: usize, eg: &mut EGraph<T>, hs: &mut Vec<AppliedId>) {
             let d3 = add(eg, "(lam $o (sum (v $o) $p $q (h (f $q $p) (f $p $o))))");
             let ex5 = Extractor::<T, AstSize>::new(eg, AstSize);
             println!("step5 {d2:?} {d3:?} extract {} | {}", ex5.extract(&d2, eg), ex5.extract(&d3, eg));
+            // an order-sensitive history in its own e-graph: a union that leaves FIVE e-nodes pending at once, later a union that
+            // leaves three whose handling order decides which class survives (p = q through one operator, q = r through another,
+            // sizes 3, 2, 2).  The order in which pending e-nodes are served must be a function of this history alone - not of
+            // how many rebuilds other e-graphs of the process (the noise thread) have run meanwhile
+            for (fa, hb) in [(0usize, 2usize), (2, 0), (0, 1), (1, 0), (0, 3), (3, 0), (1, 2), (2, 1), (1, 3), (3, 1), (2, 3), (3, 2)] {
+                let eg5 = &mut EGraph::<T>::default();
+                let un = |k: usize, x: &str| -> String { match k { 0 => format!("(g {x})"), 1 => format!("(h {x} c)"), 2 => format!("(h {x} d)"), _ => format!("(h c {x})") } };
+                let c1 = add(eg5, "1"); let c2 = add(eg5, "2");
+                for k in 0..4 { add(eg5, &un(k, "1")); add(eg5, &un(k, "2")); }
+                eg5.union(&c1, &c2);
+                let c = add(eg5, "10"); let d = add(eg5, "11");
+                let p = add(eg5, &un(fa, "10")); let z1 = add(eg5, "20"); eg5.union(&p, &z1); let z3 = add(eg5, "22"); eg5.union(&p, &z3);
+                let q = add(eg5, &un(fa, "11")); let q2 = add(eg5, &un(hb, "10")); eg5.union(&q, &q2);
+                let r = add(eg5, &un(hb, "11")); let z2 = add(eg5, "21"); eg5.union(&r, &z2);
+                eg5.union(&c, &d);
+                println!("step5 order-sensitive {fa}{hb} ids={:?} p={:?} q={:?} r={:?} c={:?}", eg5.ids(), eg5.find_applied_id(&p), eg5.find_applied_id(&q), eg5.find_applied_id(&r), eg5.find_applied_id(&c));
+                if (fa, hb) == (0, 2) { eg5.dump(); }
+            }
             println!("step5 {a:?} progress={:?}", { let p = eg.progress(); (p.number_of_classes, p.number_of_live_classes, p.sum_of_slots, p.sum_of_symmetries) });
             eg.dump();
         }
@@ -128,12 +146,17 @@ fn main_step(k: usize, eg: &mut EGraph<T>, hs: &mut Vec<AppliedId>) {
 /// unrelated work of the noise thread (sym z, fresh, sym b, egraph)
 fn noise_step(k: usize, eg: &mut EGraph<T>) {
     match k {
-        0 => { let _ = Symbol::from("zeta"); let _ = Symbol::from("omega"); eg.add_expr(RecExpr::parse("(h zeta (g omega))").unwrap()); }
+        0 => {
+            let _ = Symbol::from("zeta"); let _ = Symbol::from("omega"); eg.add_expr(RecExpr::parse("(h zeta (g omega))").unwrap());
+            // (every add / union is a rebuild call of THIS thread's e-graph: 23, 9, 11, 17 of them in the four steps)
+            for i in 0..23 { eg.add_expr(RecExpr::parse(&format!("(g {})", 3000 + i)).unwrap()); }
+        }
         1 => {
             for _ in 0..5 { let _ = Slot::fresh(); }
             let _ = Slot::named("xname");
             let _ = Slot::named("other");
             let _ = RecExpr::<T>::parse(F_TEXT);       // the same text the main thread parses later
+            for i in 0..9 { eg.add_expr(RecExpr::parse(&format!("(g {})", 4000 + i)).unwrap()); }
         }
         2 => {
             let _ = Symbol::from("beta"); let _ = Symbol::from("gamma"); eg.add_expr(RecExpr::parse("(h gamma beta)").unwrap());
@@ -146,6 +169,7 @@ fn noise_step(k: usize, eg: &mut EGraph<T>) {
             eg.union(&a, &b);
             let rws: Vec<Rewrite<T>> = vec![Rewrite::new("hcomm", "(h ?a ?b)", "(h ?b ?a)")];
             apply_rewrites(eg, &rws);
+            for i in 0..17 { eg.add_expr(RecExpr::parse(&format!("(g {})", 5000 + i)).unwrap()); }
         }
         _ => {}
     }
